@@ -23,10 +23,10 @@ ReportSplit == (Len(scen.ms) = 1 /\ Split(1)) => PrintT(<<"PRED", "SPLIT", scen.
 
 Report ==
   /\ \A t \in Threads : SelfDeadlock(t) =>
-        PrintT(<<"PRED", "SELFDEADLOCK", scen.ty, scen.ms[t], Top(t).m, Top(t).o>>)
+        PrintT(<<"PRED", "SELFDEADLOCK", scen.ty, scen.ms[t], scen.kind, Top(t).m, ObjOf(t)>>)
   /\ \A t1, t2 \in Threads : (t1 < t2 /\ BothPoint /\ ConflictOn(t1, t2) # {}) =>
-        PrintT(<<"PRED", "DATARACE", scen.ty, scen.ms[t1], scen.ms[t2], ConflictOn(t1, t2), Top(t1).o>>)
-  /\ ~NoMutualDeadlock => PrintT(<<"PRED", "MUTUALDEADLOCK", scen.ty, scen.ms>>)
+        PrintT(<<"PRED", "DATARACE", scen.ty, scen.ms[t1], scen.ms[t2], ConflictOn(t1, t2), ObjOf(t1)>>)
+  /\ ~NoMutualDeadlock => PrintT(<<"PRED", "MUTUALDEADLOCK", scen.ty, scen.kind, scen.ms>>)
   /\ ~NoLeak => PrintT(<<"PRED", "LEAK", scen.ty, scen.ms>>)
   /\ ReportSplit
 
